@@ -152,10 +152,10 @@ def _clone(ps):
     q.blocks = list(ps.blocks)
     q.trace = list(ps.trace)
     q.casevals = {k: set(v) for k, v in ps.casevals.items()}
-    for extra in ("_fork_helpers", "_depth", "stored_params"):
+    for extra in ("_fork_helpers", "_depth", "stored_params", "_variants"):
         if hasattr(ps, extra):
             v = getattr(ps, extra)
-            setattr(q, extra, set(v) if isinstance(v, set) else v)
+            setattr(q, extra, set(v) if isinstance(v, set) else list(v) if isinstance(v, list) else v)
     return q
 
 
@@ -173,6 +173,8 @@ def _do_elem(ps, n):
     if n.k == "CallExpr":
         ps.calls.append(n)
         ps.events.append(("call", n))
+        if getattr(ps, "_fork_helpers", False):
+            _expand_procedure(ps, n)
         # address-taken locals become unknown
         roots = set()
         for a in C.call_args(n):
@@ -457,6 +459,38 @@ def _expand_helper(ps, call, pol):
     for a, p_ in (common or {}).values():
         ps.facts.append((a, p_))
         ps.events.append(("branch", a, p_))
+
+
+def _expand_procedure(ps, call):
+    """A call statement to a small static helper that returns nothing (`pushNotPlainNumberError(context, &param);`) does
+    what the helper does: its decisions, calls and stores belong to the caller's path.  One helper path: appended; several:
+    the caller's path is continued once per helper path (fork at the next edge)."""
+    name = call.get("callee")
+    fn = getattr(call, "fn", None)
+    if not name or fn is None or getattr(ps, "_depth", 0) >= 2:
+        return
+    g = fn.tu.functions.get(name)
+    if g is None or not g.static or g.name == fn.name or len(g.blocks) > 16 or C.loops(g) or g.ret.get("t") != "void":
+        return
+    key = (id(fn.tu), call.id, fn.name, "proc")
+    sums = _HELPER_CACHE.get(key)
+    if sums is None:
+        from . import facts as F_
+        try:
+            clone, byvalue = F_.instantiate(g, call, "%s::" % g.name)
+            sums = summarize(clone, limit=400)
+        except Exception:
+            sums = []
+        _HELPER_CACHE[key] = sums
+    if not sums or len(sums) > 6:
+        return
+    if len(sums) == 1:
+        q = sums[0]
+        ps.facts += list(q.facts)
+        ps.calls += list(q.calls)
+        ps.events += list(q.events)
+        return
+    ps._variants = getattr(ps, "_variants", []) + [sums]
 
 
 class TooManyPaths(Exception):
